@@ -1,10 +1,13 @@
 import Qv.Proofs.Info
+import Qv.Proofs.HeapKinds
 /-!
-# C19 — Models survive copy and info round trips (the round-trip half; `_partial`)
+# C19 — Models survive copy and info round trips and never alias their inputs
 
-The aliasing half of C19 ("independent objects", "never mutates its argument") is about Python object
-identity, which a pure functional model satisfies by construction; it is decided by the correspondence
-harness `harness/c19.py` alone (DESIGN.md §4/C19).  Hence every theorem here is the *round-trip* part.
+Two halves.  The *round-trip* half (T19.1–T19.2, `_partial`) is about the pure observable state (`Qv.Model.Info`).
+The *aliasing* half ("independent objects", "never mutates its argument") is about Python object identity; it is
+stated over the explicit heap of `Qv.Model.Heap` — cells for the mutable containers, every API entry a heap
+transformer written after the source — and tied to the code by the sharing-graph correspondence of
+`harness/c19h.py` (T19.A separation, T19.B frame, T19.C arguments unchanged; second part of this file).
 -/
 namespace Qv.C19
 open Qv
@@ -49,6 +52,213 @@ def sample : MObj :=
     cons := [(.le, [[([0], 1), ([], -1)]]), (.eq, [[([1], 1)], [([0, 1], 1)]])] }
 
 example : (createFromInfo (getInfo sample)).toOption.map (fun m => m.terms) = some sample.terms := by
+  decide +kernel
+
+/-! ## The aliasing half (explicit heap, `Qv.Model.Heap`)
+
+`Heap` = list of cells, a reference is an index; `Reach h a c`: `c` is reachable from `a`; `Closed h`: no dangling
+reference (holds along every history, T19.H); `absVal h x`: terms, name, mapping, ancilla count and recorded
+constraints of the object at `x`; `F : Ctor`, `Upd`, `Payload`: the data a constructor / an in-place update stores —
+arbitrary, the theorems hold for every data-level behaviour.
+
+`FreshResult h.length h h' r` (proved for each API entry, T19.A-*): the call only appended cells to `h`, the result
+`r` is one of the appended cells, and appended cells refer to appended cells only. -/
+
+open Qv.Hp
+
+/-- **T19.A-copy.**  `M.copy()` builds its result from fresh cells only. -/
+theorem copy_fresh (F : Ctor) (h h' : Heap) (o r : Nat) (he : copyM F h o = some (h', r)) :
+    FreshResult h.length h h' r := copyM_fresh F (Nat.le_refl _) he
+
+/-- **T19.A-ctor.**  Every copy constructor `κ(a)` (`PUBO(M)`, `PCBO(M)`, `QUBO(d)`, … — any target type, `a` a model of
+any type or a plain dict) builds its result from fresh cells only; for `PCBO(M)` / `PCSO(M)` with `M` of the same type
+this includes the constraint dict, its lists and one object per recorded constraint. -/
+theorem ctor_fresh (F : Ctor) (h h' : Heap) (κ : Kind) (a r : Nat) (he : copyCtor F h κ a = some (h', r)) :
+    FreshResult h.length h h' r := copyCtor_fresh F (Nat.le_refl _) he
+
+/-- **T19.A-roundtrip.**  `create_from_info(get_info(M))` builds its result from fresh cells only. -/
+theorem roundtrip_fresh (F : Ctor) (h h' : Heap) (o r : Nat) (he : roundTrip F h o = some (h', r)) :
+    FreshResult h.length h h' r := roundTrip_fresh F (Nat.le_refl _) he
+
+/-- **T19.K (the round trip keeps the kind of the recorded constraints).**  For a `PCBO` / `PCSO` object `M` (any heap),
+the result of `create_from_info(get_info(M))` is an object of `M`'s kind whose `_constraints` lists hold only objects
+of kind `consKind` of it — `PUSO` in a spin model, `PUBO` in a boolean one — without constraints of their own. -/
+theorem roundtrip_constraint_kinds (F : Ctor) (h h' : Heap) (o r : Nat) (d : ObjData) (m rm : Option Nat) (v : Nat)
+    (c : Option Nat) (ho : h[o]? = some (Cell.obj d m rm v c)) (hcon : d.kind.isConstrained = true)
+    (he : roundTrip F h o = some (h', r)) :
+    ∃ d' mm rm' v' cd g, h'[r]? = some (Cell.obj d' mm rm' v' (some cd)) ∧ d'.kind = d.kind ∧
+      h'[cd]? = some (Cell.cdict g) ∧
+      ∀ e ∈ g, ∃ rs, h'[e.2]? = some (Cell.list rs) ∧
+        ∀ x ∈ rs, ∃ dx mx rmx vx, h'[x]? = some (Cell.obj dx mx rmx vx none) ∧ dx.kind = consKind d.kind :=
+  roundTrip_kinds F ho hcon he
+
+/-- `get_info(M)`: the info dict, its `terms`, `mapping` and `constraints` are fresh. -/
+theorem get_info_fresh (F : Ctor) (h h' : Heap) (o r : Nat) (he : getInfoH F h o = some (h', r)) :
+    FreshResult h.length h h' r := getInfoH_fresh F (Nat.le_refl _) he
+
+/-- `create_from_info(info)`: the model is fresh (it holds no cell of the info dict). -/
+theorem create_from_info_fresh (F : Ctor) (h h' : Heap) (i r : Nat) (he : createFromInfoH F h i = some (h', r)) :
+    FreshResult h.length h h' r := createFromInfoH_fresh F (Nat.le_refl _) he
+
+/-- **T19.A-mapping.** -/
+theorem mapping_fresh (h h' : Heap) (o r : Nat) (he : getMapping h o = some (h', r)) :
+    FreshResult h.length h h' r := getMapping_fresh (Nat.le_refl _) he
+
+/-- **T19.A-reverse_mapping.** -/
+theorem reverse_mapping_fresh (h h' : Heap) (o r : Nat) (he : getRMapping h o = some (h', r)) :
+    FreshResult h.length h h' r := getRMapping_fresh (Nat.le_refl _) he
+
+/-- **T19.A-variables.** -/
+theorem variables_fresh (h h' : Heap) (o r : Nat) (he : getVariables h o = some (h', r)) :
+    FreshResult h.length h h' r := getVariables_fresh (Nat.le_refl _) he
+
+/-- **T19.A-constraints.**  The `constraints` property: fresh dict, fresh lists, a fresh object per constraint. -/
+theorem constraints_fresh (F : Ctor) (h h' : Heap) (o r : Nat) (he : getConstraints F h o = some (h', r)) :
+    FreshResult h.length h h' r := getConstraints_fresh F (Nat.le_refl _) he
+
+/-- the `to_*` methods and the four free conversions return a fresh object -/
+theorem conversion_fresh (h h' : Heap) (a r : Nat) (κres : Kind) (pl : Payload)
+    (he : convH h a κres pl = some (h', r)) : FreshResult h.length h h' r := convH_fresh (Nat.le_refl _) he
+
+/-- the annealers' front end returns a fresh result (and writes nothing, T19.A) -/
+theorem anneal_fresh (h h' : Heap) (a r : Nat) (init : Option Nat) (κtmp : Kind) (pl : Payload) (nres : Nat)
+    (he : annealH h a init κtmp pl nres = some (h', r)) : FreshResult h.length h h' r :=
+  annealH_fresh (Nat.le_refl _) he
+
+/-- **T19.A (separation).**  For every closed heap and every call whose result is built from fresh cells (each of the
+entries above): everything reachable from the result is a cell the call allocated; the result shares no cell with *any*
+object that existed before (the model, the arguments, anything else); no old cell was written; every old object has the
+abstract value and the reachable cells it had; the heap is still closed. -/
+theorem fresh_separated (h h' : Heap) (r : Nat) (hc : Closed h) (f : FreshResult h.length h h' r) :
+    (∀ c, Reach h' r c → h.length ≤ c) ∧ Separated h h' r ∧ (∀ c, c < h.length → h'[c]? = h[c]?) ∧
+      (∀ x, x < h.length → absVal h' x = absVal h x ∧ ∀ c, Reach h' x c ↔ Reach h x c) ∧ Closed h' :=
+  ⟨fun _ hr => f.reach_fresh hr, f.separated hc, fun _ hc' => f.1.old hc',
+    fun _ hx => ⟨f.1.absVal_old hc hx, fun _ => f.1.reach_old_iff hc hx⟩, hc.fresh f.1⟩
+
+/-- **T19.B (frame, writes through the result).**  A client that holds only the result `r` — every cell it writes and
+every reference it stores is reachable from `r` or from a cell it allocated itself (`RunVia [r]`), any number of steps
+— leaves every object that existed before the call exactly as it was: same reachable cells, same content, same
+abstract value (terms, name, mapping, ancilla count, constraints). -/
+theorem frame_writes_through_result (h h' : Heap) (r : Nat) (hc : Closed h) (f : FreshResult h.length h h' r)
+    (s : List Step) (hs : RunVia [r] h' s) (x : Nat) (hx : x < h.length) :
+    absVal (runSteps h' s) x = absVal h x ∧ (∀ c, Reach (runSteps h' s) x c ↔ Reach h x c) ∧
+      (∀ c, Reach h x c → (runSteps h' s)[c]? = h[c]?) := by
+  have ht := RunVia.targets (n := h.length) s [r] h' f.len f.upClosed
+    (by intro q hq; simp only [List.mem_singleton] at hq; subst hq; exact f.2.1) hs
+  obtain ⟨h1, h2, h3⟩ := frame_old f.1 hc s ht hx
+  exact ⟨h3, h1, h2⟩
+
+/-- **T19.B (frame, the other direction).**  Any steps that never write a cell reachable from the result — in
+particular any mutation of the original model through its own cells — leave the result exactly as it was. -/
+theorem frame_writes_outside_result (h h' : Heap) (r : Nat) (f : FreshResult h.length h h' r) (s : List Step)
+    (hs : ∀ st ∈ s, ∀ t, st.target = some t → ¬ Reach h' r t) :
+    absVal (runSteps h' s) r = absVal h' r ∧ (∀ c, Reach (runSteps h' s) r c ↔ Reach h' r c) ∧
+      (∀ c, Reach h' r c → (runSteps h' s)[c]? = h'[c]?) := by
+  have hex : ∀ c, Reach h' r c → c < h'.length := fun c hr =>
+    (Reach.inside (S := fun c => h.length ≤ c ∧ c < h'.length)
+      (fun c cell hc hg q hq => f.1.up c cell hc.1 hg q hq) ⟨f.2.1, f.2.2⟩ hr).2
+  have hag : ∀ c, Reach h' r c → (runSteps h' s)[c]? = h'[c]? := fun c hr =>
+    runSteps_keep (fun c => Reach h' r c) s h' hs c (hex c hr) hr
+  exact ⟨absVal_congr hag, fun c => Reach.congr hag, hag⟩
+
+/-- **T19.C-add_constraint.**  `H.add_constraint_<rel>_zero(P, lam=…)` for any relation, any multiplier / penalty
+(`pen`), `P` a model of any type or a dict, possibly `H` itself: the call writes only cells of `own h recv` (the
+receiver, its bookkeeping, its constraint dict and lists).  Hence every object `x` none of whose cells is one of those
+— the argument, unless it is (part of) the receiver — has afterwards the abstract value, the reachable cells and the
+cell contents it had before. -/
+theorem add_constraint_args_unchanged (F : Ctor) (h h' : Heap) (recv arg : Nat) (rel : Rel) (pen : Option Upd)
+    (hc : Closed h) (he : Hp.addConstraint F h recv rel arg pen = some h') :
+    Closed h' ∧ ∀ x, x < h.length → (∀ c, Reach h x c → c ∉ own h recv) →
+      absVal h' x = absVal h x ∧ (∀ c, Reach h' x c ↔ Reach h x c) ∧ (∀ c, Reach h x c → h'[c]? = h[c]?) := by
+  obtain ⟨hf, hc'⟩ := addConstraint_frame F hc he
+  refine ⟨hc', fun x hx hd => ?_⟩
+  have hag := hf.reach hc hx hd
+  exact ⟨absVal_congr hag, fun c => Reach.congr hag, hag⟩
+
+/-- **T19.C-add_constraint (no capture).**  The constraint is recorded as a copy: after the call, whatever any old
+object (the receiver included) reaches is a cell the call allocated or a cell it reached before.  In particular the
+receiver does not come to hold the argument or any part of it. -/
+theorem add_constraint_no_capture (F : Ctor) (h h' : Heap) (recv arg : Nat) (rel : Rel) (pen : Option Upd)
+    (hc : Closed h) (he : Hp.addConstraint F h recv rel arg pen = some h') (x c : Nat) (hx : x < h.length)
+    (hr : Reach h' x c) : h.length ≤ c ∨ Reach h x c :=
+  (addConstraint_edges F he).reach hc hx hr
+
+/-- **T19.C-update.**  `H.update(A)` writes only cells of `own h recv`; every object disjoint from those is unchanged.
+(It does append `A`'s constraint *objects* to `H`'s lists — `H` and `A` share them afterwards; the model says so and
+the correspondence confirms it.  No cell of `A` is written.) -/
+theorem update_args_unchanged (h h' : Heap) (recv arg : Nat) (u : Upd) (hc : Closed h)
+    (he : updateH h recv arg u = some h') :
+    Closed h' ∧ ∀ x, x < h.length → (∀ c, Reach h x c → c ∉ own h recv) →
+      absVal h' x = absVal h x ∧ (∀ c, Reach h' x c ↔ Reach h x c) ∧ (∀ c, Reach h x c → h'[c]? = h[c]?) := by
+  obtain ⟨hf, hc'⟩ := updateH_frame hc he
+  refine ⟨hc', fun x hx hd => ?_⟩
+  have hag := hf.reach hc hx hd
+  exact ⟨absVal_congr hag, fun c => Reach.congr hag, hag⟩
+
+/-- **T19.C-solve (other objects).**  The brute-force solvers write exactly one old cell, the argument's own dict
+(`offset = D.pop(()); D[()] = offset`); every object that does not reach that cell is unchanged. -/
+theorem solve_others_unchanged (h h' : Heap) (a nres : Nat) (rs : List Nat) (hc : Closed h)
+    (he : solveH h a nres = some (h', rs)) :
+    Closed h' ∧ ∀ x, x < h.length → ¬ Reach h x a →
+      absVal h' x = absVal h x ∧ (∀ c, Reach h' x c ↔ Reach h x c) := by
+  obtain ⟨hf, hc'⟩ := solveH_frame hc he
+  refine ⟨hc', fun x hx hd => ?_⟩
+  have hag := hf.reach hc hx (fun c hr hm => by
+    simp only [List.mem_singleton] at hm; subst hm; exact hd hr)
+  exact ⟨absVal_congr hag, fun c => Reach.congr hag⟩
+
+/-- **T19.C-solve (the argument).**  The argument itself — a plain dict, or a model object that stores no zero offset
+and is not reachable from its own attributes — has afterwards the abstract value it had, up to the order of its terms
+(the offset key moves to the end): the same finite map, name, mapping, ancilla count, constraints. -/
+theorem solve_arg_unchanged (h h' : Heap) (a nres : Nat) (rs : List Nat) (hc : Closed h)
+    (he : solveH h a nres = some (h', rs))
+    (hacyc : ∀ cell, h[a]? = some cell → ∀ q ∈ cell.refs, ¬ Reach h q a)
+    (hz : ∀ d m rm v c, h[a]? = some (Cell.obj d m rm v c) → ∀ e ∈ d.terms, e.1 = [] → e.2 ≠ 0)
+    (mo : MObj) (hv : absVal h a = some mo) : ∃ mo', absVal h' a = some mo' ∧ SameUpToOrder mo' mo :=
+  solveH_value hc he hacyc hz hv
+
+/-- **T19.H (histories).**  Every state reachable from the empty heap by any history of the modelled API calls
+(`stepH`: construction, item assignment, `copy`, copy constructors, `get_info`, `create_from_info`, the four properties,
+`add_constraint_*`, `update`, conversions, solvers, annealers, picking sub-objects) has a closed heap and valid
+variables — the hypothesis `Closed h` of the theorems above is always met. -/
+theorem history_closed (F : Ctor) (ops : List Op) (s : HState) (he : runH F {} ops = some s) :
+    Closed s.heap ∧ ∀ r ∈ s.env, r < s.heap.length :=
+  runH_ok F ops {} s HState.OK.init he
+
+/-! ### Non-vacuity (aliasing half) -/
+
+/-- `H = PCBO(); d = {…}; H.add_constraint_le_zero(d, lam=1); G = PCBO(); G.add_constraint_eq_zero(H, lam=0);
+G.update(H)` — after which `G` and `H` share a constraint object -/
+def sampleOps : List Op :=
+  [.new .pcbo, .dict, .addc 0 .le 1 (some {}), .new .pcbo, .addc 2 .eq 0 none, .update 2 0 {}]
+
+def sampleState : HState := (runH (fun _ _ => {}) {} sampleOps).getD {}
+
+example : sampleState.heap.length = 22 ∧ sampleState.env = [4, 5, 15] := by decide +kernel
+
+example : Closed sampleState.heap := by
+  have h : (runH (fun _ _ => {}) {} sampleOps).isSome = true := by decide +kernel
+  obtain ⟨s, hs⟩ := Option.isSome_iff_exists.mp h
+  have e : sampleState = s := by simp [sampleState, hs]
+  rw [e]
+  exact (history_closed _ sampleOps s hs).1
+
+/-- every entry of T19.A is defined on it (receiver `G` = cell 15) -/
+example : (copyM (fun _ _ => {}) sampleState.heap 15).isSome ∧ (roundTrip (fun _ _ => {}) sampleState.heap 15).isSome ∧
+    (getConstraints (fun _ _ => {}) sampleState.heap 15).isSome ∧ (getMapping sampleState.heap 15).isSome ∧
+    (getRMapping sampleState.heap 15).isSome ∧ (getVariables sampleState.heap 15).isSome ∧
+    (copyCtor (fun _ _ => {}) sampleState.heap .pubo 15).isSome ∧
+    (Hp.addConstraint (fun _ _ => {}) sampleState.heap 15 .ge 4 (some {})).isSome ∧
+    (updateH sampleState.heap 4 15 {}).isSome ∧ (solveH sampleState.heap 5 2).isSome := by decide +kernel
+
+/-- `G` and `H` do share a cell (the constraint object `H` recorded, appended by `update`), so separation of a copy
+from *both* is not trivial; and the copy of `G` has 15 cells of its own -/
+example : (reachList sampleState.heap [15]).filter (fun c => (reachList sampleState.heap [4]).contains c) = [9, 6, 7, 8] ∧
+    ((copyM (fun _ _ => {}) sampleState.heap 15).map (fun p => (reachList p.1 [p.2]).length)) = some 15 := by
+  decide +kernel
+
+/-- the hypothesis of T19.C-add_constraint holds for the dict argument (cell 5) of a call on `G` -/
+example : (reachList sampleState.heap [5]).all (fun c => !(own sampleState.heap 15).contains c) = true := by
   decide +kernel
 
 end Qv.C19
